@@ -170,6 +170,13 @@ def ctlSettle (s : Ctl.St) : Nat → Ctl.St
       else if s.cl = .closeConn then (match Ctl.step s .closeConn with | some s' => ctlSettle s' n | none => s)
       else s
 
+/-- the session context is cancelled (Session.Close went through): the round trips an attempt still had fail at once -/
+def ctlDrain (s : Ctl.St) : Nat → Ctl.St
+  | 0 => s
+  | n + 1 => match Ctl.step s .rcStep with
+    | some s' => ctlDrain s' n
+    | none => s
+
 def ctlMacro (s : Ctl.St) (tok : String) : Option Ctl.St :=
   match splitTok tok with
   -- the server resets the control connection while every dial is refused: the reader's reconnect() fails at once
@@ -180,7 +187,17 @@ def ctlMacro (s : Ctl.St) (tok : String) : Option Ctl.St :=
       if s.cl ≠ .idle ∨ s.rc ≠ .free then none else
       ((Ctl.step s .hbTimer).bind (Ctl.step · (.hbBeatFail k))).map (ctlSettle · 4)
   | ("rel", none) => (match s.rc with | .hb _ => (Ctl.step s .rcStep).map (ctlSettle · 4) | _ => none)
-  | ("close", none) => (Ctl.step s .close).map (ctlSettle · 4)
+  -- the server resets the control connection while dials are held: the reader's reconnect(), k round trips, the first held
+  | ("dropo", some k) =>
+      if s.state = .closing ∨ s.rc ≠ .free ∨ s.cl ≠ .idle then none else (Ctl.step s (.otherEnter k)).map (ctlSettle · 4)
+  | ("relo", none) => (match s.rc with | .other _ => (Ctl.step s .rcStep).map (ctlSettle · 4) | _ => none)
+  -- Session.Close: blocked behind a reconnect of the heartbeat goroutine; otherwise it goes through, and its cancel()
+  -- ends a reconnect attempt of another goroutine (the connection it is setting up lives on the session context)
+  | ("close", none) => (Ctl.step s .close).map fun s1 =>
+      let s2 := ctlSettle s1 4
+      match s2.cl, s2.rc with
+      | .done, .other k => ctlSettle (ctlDrain s2 (k + 1)) 4
+      | _, _ => s2
   | _ => none
 
 def showCtl (s : Ctl.St) : String :=
@@ -197,7 +214,7 @@ def runCtlMacro (s : Ctl.St) : List String → List String
     | none => "skip" :: runCtlMacro s ts
 
 /-- ops:
-  ctl : act act …      a conducted schedule of one Session with a control connection (acts: drop hbfailK rel close) →
+  ctl : act act …      a conducted schedule of one Session with a control connection (acts: drop hbfailK rel dropoK relo close) →
       `h<heartbeat goroutine>c<closer>r<reconnecting>s<state>` after every action, initial state (heartbeat started) first
   ctlunit hb close | ctlunit close hb    the same letters for a fresh controlConn on which the heartbeat goroutine's
       first instruction resp. close() runs first (close first: the heartbeat goroutine then runs for good, KF-C17-4)
